@@ -215,6 +215,7 @@ fn main() {
     let mut sy = synth::Synth::new();
     let m = [1usize, 12, 3][level];
     sy.msm_eval(&mut ctx, 40 * m);
+    sy.constructors(&mut ctx, 24 * m);
     sy.dual_seq(&mut ctx, 120 * m);
     sy.horner(&mut ctx, 2 * m);
     sy.gbatch(&mut ctx, 2 * m);
